@@ -119,6 +119,16 @@ DESC = {
     'C18-i': 'task-spawning macros build the chain of a continued step inside the task (an operand panic becomes a JoinError a failing sibling can pre-empt)', 'C19-j': '`-> {block}`: the hoisted callable is called through an immutable binding (FnMut closures rejected)',
     'C04-h': 'active branches of a step kept in one machine word (65+ branches: shift overflow panic)', 'C12-l': 'spawn variants: the first `~` of a branch whose step 0 is only a block value does not start a step (names one step ahead / stale)',
     'C20-j': 'async/sync choice of `??` rendering passed through a process-wide static (a concurrent sync expansion flips it)',
+    # round 8
+    'C01-l': '`__inspect` helper emitted only when a `??` is found after the first action of a step (`~??` alone: helper missing)', 'C01-m': 'handler look-alike determiner no longer validated (`=> then => f` with a value called `then` is cut)',
+    'C03-g': 'single-branch macros: a `~` does not start a step unless a wrapper is open', 'C06-j': 'sync try steps wider than 32: success flags checked in chunks_exact(32) (the partial tail chunk is never checked)',
+    'C07-j': 'task-spawning try macros joined with tokio::try_join! (round-robin polling: another failing branch of the same step may win)', 'C07-k': '`tokio::spawn` without the leading `::` in the spawn helper',
+    'C08-n': 'inherited part of the thread name truncated to 128 characters', 'C09-n': 'non-try async: a new step is started after 16 members of a step (the tail of a long chain waits for the siblings)',
+    'C10-l': 'async macros: `??` inside a wrapper uses the sync inspect helper (callback count differs for None / Err / iterators)', 'C13-l': 'sync try: branches whose step uses only `|>`, `??`, `?>`, error-side operators are left out of the failure check (`?>` on Option can fail)',
+    'C14-o': 'initial operand with a leading unary operator no longer parenthesised (generator)', 'C14-p': 'a punctuation-free operand prefix is accepted as complete (`if a <= b {..}` is cut at `<=`)',
+    'C15-o': 'an empty wrapper `op >>> <<<` is collapsed by the unit parser (the builder balance stays one too high: an unmatched `<<<` reaches a generator panic)',
+    'C16-o': 'indexed step-result name decided by total branch count (async try, un-transposed path, lone non-final step)', 'C16-p': 'explicit `lazy_branches(false)` lost on the thread-spawning macros (callable branches are returned un-called)',
+    'C18-j': 'thread joins in two phases (all `join()`s, then all `unwrap()`s): a panic reaches the caller only after every sibling has finished',
 }
 rows = []
 for m in sorted(os.listdir(os.path.join(V, "seeded"))):
